@@ -65,10 +65,11 @@ func amountJSON(v []byte) (*big.Int, bool) {
 // Everything else is projected away: user/stake balances (all accounts are far richer than anything the
 // alphabet spends), fee pool shares f_, pending undelegations deleg_p_ (paid to balances only), the vote
 // bookkeeping es__ (with MinVotesRequired = 1 nobody is ever frozen, and rewards do not look at it),
-// validator and staking records (constant: the alphabet has no staking operation), governance options
-// (constant) - none of them is read by handleBlockRewards / WITHDRAW_REWARD within these worlds.
+// stake bookkeeping st__ (the validator records v_ carry the power and are kept; the Tendermint sets of
+// the next blocks are part of the state key), governance options (constant) - none of them is read by
+// handleBlockRewards / WITHDRAW_REWARD within these worlds.
 func projected(k string) bool {
-	return strings.HasPrefix(k, "rwz_") || strings.HasPrefix(k, "rwcum_") || strings.HasPrefix(k, "ri_") || strings.HasPrefix(k, "rwaddr_") ||
+	return strings.HasPrefix(k, "v_") || strings.HasPrefix(k, "rwz_") || strings.HasPrefix(k, "rwcum_") || strings.HasPrefix(k, "ri_") || strings.HasPrefix(k, "rwaddr_") ||
 		strings.HasPrefix(k, "delegRwz_") || strings.HasPrefix(k, "deleg_a_") || k == rewardPoolKey || k == delegPoolKey
 }
 
